@@ -147,7 +147,7 @@ def run(res):
                 # any text is a message, the empty and the blank one included; nothing in it is interpreted
                 txt = rng.choice(["t%d" % len(ls)] * 4 + ["", " ", " \t ", "a;b", "x // y", "/* z */", "50%", "in line: 7", "error: no", "é", "it's",
                                                            "  padded  ", "m" * 70, ".error", "@0", "\\", ","])
-                form = rng.randrange(4)
+                form = rng.randrange(7)
                 if form == 0:
                     ls.append('.%s "%s"' % (k, txt))
                     expect.append(("info" if k == "message" else "warning", txt, len(ls)))
@@ -156,8 +156,18 @@ def run(res):
                     expect.append(("info" if k == "message" else "warning", txt, len(ls) - 1))
                 elif form == 2:
                     ls += [".if 0", '.%s "%s"' % (k, txt), ".error \"never\"", ".endif"]
-                else:
+                elif form == 3:
                     ls += [".if 0", ".else", '.%s "%s"' % (k, txt), ".endif"]
+                    expect.append(("info" if k == "message" else "warning", txt, len(ls) - 1))
+                elif form == 4:
+                    # an unselected branch that holds a COMPLETE nested conditional (with its own .else / .elif) and text behind it
+                    ls += [".if 0", ".if 1", ".message \"never-a\"", rng.choice([".else", ".elif 1", ".elif 0"]), ".error \"never-b\"", ".endif",
+                           '.%s "never-c"' % k, ".error \"never-d\"", "  this is not assembly", ".endif"]
+                elif form == 5:
+                    ls += [".if 1", '.%s "%s"' % (k, txt), ".else", ".ifdef NOPE", ".error \"never\"", ".else", ".error \"never\"", ".endif", ".message \"never\"", ".endif"]
+                    expect.append(("info" if k == "message" else "warning", txt, len(ls) - 8))
+                else:
+                    ls += [".if 0", ".elif 0", ".if 1", ".else", ".endif", ".error \"never\"", ".else", '.%s "%s"' % (k, txt), ".endif"]
                     expect.append(("info" if k == "message" else "warning", txt, len(ls) - 1))
             ls.append(l)
         plain = [("" if (x.startswith(".message") or x.startswith(".warning")) else x) for x in ls]
